@@ -46,7 +46,8 @@ CHECKS = {
         ref="DESIGN.md §5 C05, §10.5"),
     "C09": dict(
         technique="runtime monitoring: per-epoch set/observer ledger (single winner, observers read the winner's bytes, "
-                  "callback-before-waiters), reset cycles, logical-deadlock supervisor, delay injection, ASan/TSan builds",
+                  "callback-before-waiters), reset cycles, reset-by-an-observer racing with the setter's wake-up of a long waiter list "
+                  "(generation oracle), logical-deadlock supervisor, delay injection, ASan/TSan builds",
         category="exploration",
         text="held on the executions produced: thousands of ready epochs of eventuals (all value sizes incl. 0) and futures "
              "(0..64 compartments, with/without callback) with racing setters, blocked and late waiters, testers of every "
@@ -72,7 +73,8 @@ CHECKS = {
     "C19": dict(
         technique="runtime monitoring under a virtual clock: scripted waiter-queue shapes compared with a reference queue "
                   "model after every clock/signal step, timed-wait soups with credit accounting, pool histories with blocking "
-                  "pops, ASan on departed waiters' stack nodes",
+                  "pops, blocked consumers that must each be woken by single pushes (call deadline), ASan on departed waiters' "
+                  "stack nodes",
         category="exploration",
         text="held on the executions produced: thousands of queue shapes (timed-out waiter at head/middle/tail, behind untimed "
              "ones, ULT and external) where exactly the expired waiters time out, later signals wake exactly one remaining "
@@ -176,7 +178,8 @@ CHECKS = {
     "C13": dict(
         technique="runtime monitoring: per-slice pool log of the migrating unit checked against a request ledger (exact in "
                   "sequential phases on a parked unit, latest-recorded-request rule with in-flight awareness in concurrent "
-                  "phases), callback ledger, rejection probes, delay injection at the request/handler window, ASan/LSan/TSan",
+                  "phases), pending request followed by each yielding form (next slice must run on the target's stream), callback "
+                  "ledger, rejection probes, delay injection at the request/handler window, ASan/LSan/TSan",
         category="exploration",
         text="held on the executions produced: hundreds of exact sequential migrations per run via all three request APIs "
              "(moved within two scheduling points, one callback each), rejected requests without effect, ABT_thread_migrate "
